@@ -136,11 +136,14 @@ reg('c05_scratch_hash_def', 'C05', QT, 2400, 14, 'every raw board (no validity a
     'c05::scratch_hash_def', unwind=65, props=['C05', 'C19'])
 
 # ---------------------------------------------------------------- C11
-fam_side('c11_validate_exact', 'C11', 'c11::validate_exact', 's12', 65, 3600, 12, 'every raw board (13^64 cell assignments, rights, e.p. marks, counters)',
-         props=['C11', 'C19', 'C05'])
+for pk, pc, pd in [('accept', 1, 'acceptance <=> validity conditions; every error variant truthful'),
+                   ('normal', 2, 'normal form, derived sets, stored hash of accepted boards'), ('idem', 3, 'validating the result again changes nothing')]:
+    fam_side('c11_validate_' + pk, 'C11', 'c11::validate_exact', 's12', 65, 3600, 10, 'every raw board (13^64 cell assignments, rights, e.p. marks, counters): ' + pd,
+             props=['C11', 'C19', 'C05'], extra_const=', %d' % pc)
 
 # ---------------------------------------------------------------- C07
-fam_side('c07_outcome_classification', 'C07', 'c07::outcome_classification', 's123', 65, 3000, 10, FULL, props=['C07', 'C14'])
+for hk, hc, hd in [('nomove', 0, "the probe answers 'no legal move'"), ('move', 1, "the probe answers 'has a legal move'")]:
+    fam_side('c07_outcome_classification_' + hk, 'C07', 'c07::outcome_classification', 's123', 65, 3000, 9, FULL + '; ' + hd, props=['C07', 'C14'], extra_const=', %d' % hc)
 fam_side('c07_outcome_lone_king', 'C07', 'c07::outcome_lone_king', 's123', 65, 3600, 14, FULL + ' restricted to: side to move has only its king (probe answer decided by the rules, realizable counterexamples)',
          props=['C07', 'C14'])
 fam_side('c07_castling_never_only_move', 'C07', 'c07::castling_never_only_move', 's12', 65, 2400, 10, FULL + ' x both castlings')
@@ -276,6 +279,25 @@ for hk, hc in [('v', 'MV'), ('h', 'MH')]:
 PROPS = ['C%02d' % i for i in range(1, 21)]
 
 
+# ---------------------------------------------------------------- scheduling weights calibrated from measured resident memory
+import fnmatch as _fn
+MEM_OVERRIDE = [
+    ('c20_*', 2), ('c12_co*', 2), ('c12_cell_parse', 2), ('c12_castling_*', 3), ('c12_san_parse_total_5', 6), ('c14_*', 2), ('c15_leapers_exact', 1), ('c15_between_exact', 1),
+    ('c15_bishop_exact', 3), ('c10_uci_parse_exact', 1), ('c06_wellformed_exact', 1), ('c05_hash_features', 1),
+    ('c06_semilegal_validator_?_king', 3), ('c06_semilegal_validator_?_pawn', 3), ('c06_semilegal_validator_?_knight', 3), ('c06_semilegal_validator_?_bishop', 3),
+    ('c06_semilegal_validator_?_rook', 3), ('c06_semilegal_validator_?_queen', 3), ('c06_semilegal_validator_?_ep', 3),
+    ('c03_make_unmake_?_null', 5), ('c05_hash_delta_?_null', 4), ('c05_hash_delta_?_ep', 4), ('c05_hash_delta_?_castling', 7), ('c05_hash_delta_?_pspecial', 7),
+    ('c10_uci_struct_roundtrip_*', 4), ('c07_castling_never_only_move_?', 7), ('c07_outcome_classification_*', 9),
+    ('c09_san_into_move_castling_?', 19), ('c09_san_simple_pawn_refused', 14), ('c16_attackers_exact_*', 7), ('c16_check_queries_exact_?', 9),
+    ('c01_try_unchecked_*', 8), ('c01_validate_*', 10), ('c01_prefiltered_*', 11), ('c02_make_raw_step_*', 12), ('c02_make_move_step_?_*', 12),
+    ('c11_validate_*', 9), ('c13_chain_push_pop_*', 9), ('c13_chain_step_s?_p?_other', 10), ('c18_mirror_outcome_*', 7), ('c18_mirror_move_*', 18), ('c05_scratch_hash_def', 12),
+]
+for _n, _h in HARNESSES.items():
+    for _pat, _gb in MEM_OVERRIDE:
+        if _fn.fnmatchcase(_n, _pat):
+            _h['mem_gb'] = _gb
+            break
+
 # ---------------------------------------------------------------- quick tier: fixed sets per property
 # (the special-move / king cases where the property texts and the seeded changes locate the risk, plus the cheap
 #  complete harnesses; everything else of the property is decided in the thorough tier only and named there)
@@ -283,39 +305,37 @@ def _g(prefix, pairs):
     return ['%s_%s_%s' % (prefix, sd, g) for sd, g in pairs]
 
 
+# The quick command of a property must finish within 900 s wall on a fresh sandbox (measured limit of the
+# evaluation harness), so every harness here was measured at <= ~600 s single and the whole set runs in ONE wave
+# within the memory budget.  Heavier cases of the same families (e.g. the prefiltered decision for en passant,
+# 20 min) are thorough-tier only; the evidence of the quick run names them.
 QUICK = {
-    'C01': _g('c01_prefiltered', [('w', 'ep'), ('b', 'ep'), ('w', 'king'), ('b', 'castling')]) + ['c06_semilegal_gen_pawns_all_w', 'c06_semilegal_gen_pawns_all_b'],
-    'C02': _g('c02_make_move_step', [('w', 'ep'), ('b', 'castling'), ('w', 'pspecial')]) + _g('c02_make_raw_step', [('b', 'ep'), ('w', 'castling'), ('b', 'foreign')]) + ['c09_san_simple_pawn_refused', 'c09_san_into_move_castling_b',
-           'c10_uci_parse_exact', 'c13_chain_step_s0_p0_castling'],
-    'C03': _g('c03_make_unmake', [('w', 'pspecial'), ('b', 'pspecial'), ('w', 'ep'), ('b', 'ep'), ('w', 'castling'), ('b', 'castling'), ('b', 'king'), ('w', 'rook')]),
-    'C04': _g('c03_make_unmake', [('w', 'null'), ('b', 'null'), ('w', 'pspecial'), ('b', 'castling'), ('b', 'ep'), ('w', 'queen'), ('b', 'pspecial'), ('w', 'castling')]),
-    'C05': ['c05_hash_features', 'c05_scratch_hash_def'] + _g('c05_hash_delta', [('w', 'castling'), ('b', 'castling'), ('w', 'ep'), ('b', 'pspecial'), ('w', 'king'), ('b', 'rook')])
-           + _g('c03_make_unmake', [('w', 'pspecial'), ('b', 'ep')]),
-    'C06': ['c06_wellformed_exact'] + _g('c06_semilegal_validator', [(sd, g) for sd in 'wb' for g in ('king', 'pawn', 'knight', 'bishop', 'rook', 'queen', 'ep')]
-           + [('w', 'castling'), ('b', 'castling'), ('w', 'pspecial'), ('b', 'foreign')]) + ['c06_semilegal_gen_pawns_all_w', 'c06_semilegal_gen_pawns_all_b'],
-    'C07': ['c07_outcome_classification_w', 'c07_outcome_classification_b', 'c07_castling_never_only_move_w', 'c07_castling_never_only_move_b'],
-    'C09': ['c09_san_simple_pawn_refused', 'c09_san_into_move_castling_w', 'c09_san_into_move_pawnmove_b', 'c09_san_into_move_pawncapture_w',
-            'c09_san_from_move_w_ep', 'c09_san_from_move_b_castling', 'c12_san_parse_total_5'],
-    'C10': _g('c10_uci_struct_roundtrip', [(sd, g) for sd in 'wb' for g in ('king', 'pawn', 'knight', 'bishop', 'rook', 'queen', 'pspecial', 'ep', 'castling')])
-           + ['c10_uci_accept_semi_w', 'c10_uci_parse_exact'],
-    'C11': ['c11_validate_exact_w', 'c11_validate_exact_b'],
+    'C01': ['c01_try_unchecked_w_ep', 'c01_try_unchecked_b_ep', 'c01_validate_w_ep', 'c06_semilegal_validator_w_castling',
+            'c06_semilegal_validator_w_ep', 'c06_semilegal_validator_b_ep'],
+    'C02': ['c02_make_raw_step_w_castling', 'c02_make_raw_step_b_ep', 'c09_san_simple_pawn_refused', 'c10_uci_parse_exact', 'c13_chain_push_pop_s1_p0_ep'],
+    'C03': _g('c03_make_unmake', [('w', 'ep'), ('b', 'ep'), ('w', 'castling'), ('b', 'pspecial'), ('b', 'king'), ('w', 'queen')]),
+    'C04': _g('c03_make_unmake', [('w', 'null'), ('b', 'null'), ('b', 'castling'), ('w', 'pspecial'), ('b', 'ep'), ('w', 'rook')]),
+    'C05': ['c05_hash_features', 'c05_scratch_hash_def'] + _g('c05_hash_delta', [('w', 'castling'), ('b', 'ep'), ('w', 'pspecial'), ('b', 'null')])
+           + ['c03_make_unmake_b_pspecial'],
+    'C06': ['c06_wellformed_exact'] + _g('c06_semilegal_validator', [('w', 'king'), ('w', 'pawn'), ('b', 'knight'), ('b', 'bishop'), ('w', 'rook'), ('b', 'queen'),
+            ('w', 'ep'), ('b', 'ep'), ('w', 'castling'), ('b', 'castling')]),
+    'C07': ['c07_outcome_classification_nomove_w', 'c07_outcome_classification_move_b', 'c07_castling_never_only_move_w', 'c07_castling_never_only_move_b'],
+    'C09': ['c09_san_simple_pawn_refused', 'c09_san_into_move_castling_w', 'c12_san_parse_total_5'],
+    'C10': _g('c10_uci_struct_roundtrip', [('w', 'king'), ('w', 'pawn'), ('w', 'pspecial'), ('w', 'ep'), ('w', 'castling'), ('b', 'knight'), ('b', 'bishop'), ('b', 'rook'),
+            ('b', 'queen'), ('b', 'ep')]) + ['c10_uci_parse_exact'],
+    'C11': ['c11_validate_accept_w', 'c11_validate_accept_b', 'c11_validate_normal_w', 'c11_validate_idem_b'],
     'C12': ['c12_coord_parse', 'c12_coord_roundtrip', 'c12_color_parse', 'c12_cell_parse', 'c12_castling_parse', 'c12_castling_roundtrip',
             'c12_san_parse_total_5', 'c10_uci_parse_exact'],
-    'C13': ['c13_chain_step_s0_p0_castling', 'c13_chain_push_pop_s0_p0_castling', 'c13_chain_push_pop_s1_p0_ep', 'c13_chain_step_s0_p2_other',
-            'c13_chain_step_s5_p3_other', 'c13_chain_eq_s0_pawn_v1', 'c13_chain_eq_s0_king_v0'],
-    'C14': ['c14_outcome_filter_table', 'c14_chain_outcome_precedence', 'c07_outcome_classification_w', 'c13_chain_step_s5_p3_other',
-            'c13_chain_step_s3_p0_other'],
+    'C13': ['c13_chain_step_s0_p2_other', 'c13_chain_push_pop_s1_p0_ep', 'c13_chain_push_pop_s0_p0_castling', 'c13_chain_step_s3_p0_other'],
+    'C14': ['c14_outcome_filter_table', 'c14_chain_outcome_precedence', 'c13_chain_step_s3_p0_other', 'c13_chain_step_s0_p2_other', 'c07_outcome_classification_move_w'],
     'C15': ['c15_leapers_exact', 'c15_between_exact', 'c15_bishop_exact'],
     'C16': ['c16_attackers_exact_w_by_white', 'c16_attackers_exact_w_by_black', 'c16_attackers_exact_b_by_white', 'c16_attackers_exact_b_by_black',
-            'c16_check_queries_exact_w', 'c16_check_queries_exact_b'],
-    'C17': ['c17_walker_s5_p3_concrete_2_2', 'c17_walker_s0_p3_concrete_1_2'],
-    'C18': ['c18_mirror_move_v_w_ep', 'c18_mirror_move_v_b_castling', 'c18_mirror_move_h_w_pspecial', 'c18_mirror_outcome_v_w', 'c18_mirror_outcome_h_b',
-            'c06_semilegal_gen_pawns_all_w', 'c06_semilegal_gen_pawns_all_b'],
+            'c16_check_queries_exact_w'],
+    'C17': ['c17_walker_s0_p3_concrete_1_2'],
+    'C18': ['c18_mirror_move_v_w_castling', 'c18_mirror_outcome_h_b'],
     'C19': ['c15_bishop_exact', 'c05_scratch_hash_def', 'c16_attackers_exact_w_by_black', 'c06_semilegal_validator_b_castling', 'c06_semilegal_validator_w_ep',
-            'c03_make_unmake_b_pspecial', 'c03_make_unmake_w_castling', 'c06_semilegal_gen_pawns_all_w', 'c11_validate_exact_b'],
+            'c03_make_unmake_b_pspecial'],
 }
-
-
 # ---------------------------------------------------------------- thorough tier: fixed sets per property (patterns)
 # sized to finish within roughly 60-120 min on 16 cores / 62 GB (memory, not cores, is the limit); what a property's
 # harness families contain beyond these sets is listed in evidence as "not run in any tier" and is outside the claim
@@ -331,17 +351,17 @@ THOROUGH = {
     'C03': ['c03_make_unmake_*'],
     'C04': ['c03_make_unmake_*', 'c04_nested_w_ep', 'c04_nested_b_castling', 'c04_nested_w_pspecial', 'c04_nested_b_king', 'c13_chain_step_s0_p1_other', 'c17_walker_s5_p3_concrete_2_2'],
     'C05': ['c05_hash_features', 'c05_scratch_hash_def', 'c05_hash_delta_*', 'c03_make_unmake_?_pspecial', 'c03_make_unmake_?_ep', 'c03_make_unmake_?_castling',
-            'c11_validate_exact_w'],
+            'c11_validate_normal_w'],
     'C06': ['c06_wellformed_exact', 'c06_semilegal_validator_*', 'c06_semilegal_gen_*'],
-    'C07': ['c07_outcome_classification_?', 'c07_outcome_lone_king_?', 'c07_castling_never_only_move_?'],
+    'C07': ['c07_outcome_classification_*', 'c07_outcome_lone_king_?', 'c07_castling_never_only_move_?'],
     'C09': ['c09_san_simple_pawn_refused', 'c09_san_into_move_*', 'c09_san_from_move_?_ep', 'c09_san_from_move_?_castling', 'c09_san_from_move_?_pspecial',
             'c09_san_from_move_w_pawn', 'c09_san_from_move_b_king', 'c09_san_from_move_w_knight', 'c09_san_from_move_b_rook', 'c09_san_from_move_w_queen',
             'c12_san_parse_total_5', 'c12_san_parse_total_7'],
     'C10': ['c10_*'],
-    'C11': ['c11_*'],
+    'C11': ['c11_validate_*'],
     'C12': ['c12_coord_*', 'c12_color_parse', 'c12_cell_parse', 'c12_castling_*', 'c12_san_parse_total_*', 'c10_uci_parse_exact', 'c10_uci_text_roundtrip'],
     'C13': ['c13_chain_step_*', 'c13_chain_push_pop_*', 'c13_chain_eq_*'],
-    'C14': ['c14_*', 'c07_outcome_classification_?', 'c07_outcome_lone_king_?', 'c13_chain_step_s5_*', 'c13_chain_step_s3_p0_*', 'c13_chain_step_s2_p0_rook', 'c13_chain_step_s4_p0_king'],
+    'C14': ['c14_*', 'c07_outcome_classification_*', 'c07_outcome_lone_king_?', 'c13_chain_step_s5_*', 'c13_chain_step_s3_p0_*', 'c13_chain_step_s2_p0_rook', 'c13_chain_step_s4_p0_king'],
     'C15': ['c15_*'],
     'C16': ['c16_*'],
     'C17': ['c17_*'],
@@ -350,7 +370,7 @@ THOROUGH = {
             'c18_mirror_move_h_w_king', 'c18_mirror_move_h_b_rook', 'c18_mirror_outcome_*', 'c18_mirror_gen_v_w', 'c18_mirror_gen_h_b', 'c06_semilegal_gen_pawns_all_?'],
     'C19': ['c15_bishop_exact', 'c15_rook_exact', 'c05_scratch_hash_def', 'c16_attackers_exact_w_*', 'c16_check_queries_exact_b', 'c06_semilegal_validator_?_castling', 'c06_semilegal_validator_?_ep',
             'c06_semilegal_validator_w_queen', 'c06_semilegal_validator_b_pspecial', 'c03_make_unmake_?_pspecial', 'c03_make_unmake_?_castling', 'c03_make_unmake_w_ep',
-            'c06_semilegal_gen_all_?', 'c06_semilegal_gen_pawns_all_?', 'c11_validate_exact_?', 'c01_prefiltered_w_queen', 'c01_prefiltered_b_ep'],
+            'c06_semilegal_gen_all_?', 'c06_semilegal_gen_pawns_all_?', 'c11_validate_accept_?', 'c01_prefiltered_w_queen', 'c01_prefiltered_b_ep'],
     'C20': ['c20_*', 'c12_coord_*', 'c12_color_parse', 'c12_cell_parse', 'c12_castling_*'],
 }
 
